@@ -376,7 +376,15 @@ func toNodes(kids []PNode, parentCfg bool, parentName string, path string, in *i
 		}
 		n := Node{K: k.K, N: k.N, Mand: k.Mand == "true", Desc: k.Desc, Keys: k.Keys, C: []Node{}, Units: k.Units, Et: EffType{Rngs: []string{}, Lens: []string{}, En: []EnumV{}, Ids: []string{}, Mems: []string{}}}
 		if k.Type != nil {
-			n.Et.Base = strings.TrimSuffix(k.Type.Format, "-list")
+			// list-ness: the format of a leaf-list's type is the list form, a leaf's is not
+			n.Et.Base = k.Type.Format
+			if k.K == "leaf-list" {
+				if strings.HasSuffix(k.Type.Format, "-list") {
+					n.Et.Base = strings.TrimSuffix(k.Type.Format, "-list")
+				} else {
+					n.Et.Base = k.Type.Format + " (not the list form)"
+				}
+			}
 			n.Et.Rngs = append(n.Et.Rngs, k.Type.Ranges...)
 			n.Et.Ids = append(n.Et.Ids, k.Type.Bases...)
 			n.Et.Lens = append(n.Et.Lens, k.Type.Lengths...)
